@@ -53,6 +53,7 @@ type opInfo struct {
 	termBy string
 	done   string
 	exec   bool // an execution was started for this incarnation of the id
+	serial int  // number of that execution
 }
 
 type verdict struct {
@@ -152,7 +153,8 @@ func accept(p proto, log []ev, panicMsg string) *verdict {
 		add(i, clReuse, "subscribe re-using a terminated id is refused", r.class, "reuse|"+r.class,
 			fmt.Sprintf("the server had sent its terminal message for id %q (%s); the client re-used the id, which is a new operation, but no execution was started for it (answered as a duplicate / ignored)", r.id, r.class))
 	}
-	malCause := "client " + kNonJSON // cause of everything recorded in the step that delivers a malformed frame
+	lateReturn := map[string]string{} // id -> kind of the cancelled execution that returned last
+	malCause := "client " + kNonJSON  // cause of everything recorded in the step that delivers a malformed frame
 	malClass := ""
 	for i, e := range log {
 		if !e.Post && e.Cause == malCause && malClass != "" {
@@ -180,6 +182,18 @@ func accept(p proto, log []ev, panicMsg string) *verdict {
 			continue
 		}
 		switch e.K {
+		case "xsilent":
+			// a subscription that was started and polling has a cancelled context at the end
+			if o := ops[e.ID]; o != nil && o.sub && o.st == opActive && phase != phClosed && !abandoned {
+				why := "nobody completed it"
+				class := "cancelled by the server for no visible reason"
+				if k, ok := lateReturn[e.ID]; ok {
+					class = "after the late return of a cancelled " + k + " with the same id"
+					why = "a cancelled " + k + " that used the id before returned late"
+				}
+				add(i, clTerminal, "active operation silently cancelled by the server", class, "silent|"+class,
+					fmt.Sprintf("subscription %q is active for the client (no complete from either side, no error, connection open) but the server cancelled it without any terminal message (%s): it will never deliver nor terminate, and its id is no longer registered", e.ID, why))
+			}
 		case "readhorizon":
 			if phase != phClosed {
 				add(i, clReadWedge, "handler still reading after the horizon of failed reads", "connection still served", "read wedge",
@@ -228,7 +242,13 @@ func accept(p proto, log []ev, panicMsg string) *verdict {
 				o := ops[e.ID]
 				switch {
 				case p == protoTransport && phase == phOpen:
+					// regardless of the shape of the payload
 					oblige(4401, "subscribe before a successful connection_init", e.Msg)
+				case e.Bad:
+					// acknowledged connection, payload cannot be decoded: this server ignores the message
+					// (no reply, nothing started); the property prescribes no reaction -> not judged. It is
+					// not a started operation; if the server executes something anyway the per-id rules fire
+					v.nj("subscribe_with_undecodable_payload_on_acknowledged_connection")
 				case o != nil && o.st == opActive:
 					if p == protoTransport {
 						oblige(4409, "subscribe with the id of an active operation", e.Msg)
@@ -295,6 +315,7 @@ func accept(p proto, log []ev, panicMsg string) *verdict {
 				v.feat("execution_started")
 				if o := ops[e.ID]; o != nil {
 					o.exec = true
+					o.serial = e.Code
 				}
 				if reuse != nil && reuse.id == e.ID && reuse.msg == e.Msg {
 					reuse = nil // the re-used id was started as a new operation
@@ -316,6 +337,18 @@ func accept(p proto, log []ev, panicMsg string) *verdict {
 					fmt.Sprintf("%s for id %q by a message delivered after %s (close code %d was due)", what, e.ID, mustCloseWhy, mustClose))
 			}
 		case "xdone":
+			if e.Type == "cancelled" {
+				// the return of an execution that was cancelled earlier; when the id has been re-used
+				// in the meantime this is the predecessor of the current operation
+				o := ops[e.ID]
+				if o != nil && o.exec && o.serial == e.Code {
+					// the current operation of this id was cancelled while executing
+					o.done = e.Type
+				} else {
+					lateReturn[e.ID] = e.Lead // a predecessor of the current operation
+				}
+				break
+			}
 			if o := ops[e.ID]; o != nil {
 				o.done = e.Type
 			}
@@ -435,6 +468,15 @@ func accept(p proto, log []ev, panicMsg string) *verdict {
 					case o.done == "ok" || o.done == "err":
 						add(i, clTerminal, "no terminal message after the execution finished", "execution result "+o.done, "missing terminal",
 							fmt.Sprintf("operation %q finished (%s) but neither complete nor error was written", id, o.done))
+					case o.done == "cancelled":
+						// executing, not completed by the client, connection open and served - yet the
+						// server cancelled the execution and never answered
+						class := "cancelled by the server for no visible reason"
+						if k, ok := lateReturn[id]; ok {
+							class = "after the late return of a cancelled " + k + " with the same id"
+						}
+						add(i, clTerminal, "active operation silently cancelled by the server", class, "silent|"+class,
+							fmt.Sprintf("operation %q was executing and active for the client, the server cancelled its execution and wrote neither error nor complete (%s)", id, class))
 					case !o.exec:
 						// accepted by the server (no close, no duplicate, connection acknowledged)
 						// but neither executed nor answered: the client waits for ever and the id
